@@ -40,8 +40,19 @@ type state struct {
 	open         []SegmentationDescriptor
 	received     []*receivedElem
 	receivedHead int
-	blackoutIdx  int
-	inBlackout   bool
+}
+
+// blackoutIndex returns the index in s.open of the pending program breakaway
+// (the most recent one), or -1 when there is none. It is derived from the
+// open list on every call so that it cannot go stale when the breakaway, or a
+// descriptor below it, leaves the list by another route than a resumption.
+func (s *state) blackoutIndex() int {
+	for i := len(s.open) - 1; i >= 0; i-- {
+		if s.open[i].TypeID() == SegDescProgramBreakaway {
+			return i
+		}
+	}
+	return -1
 }
 
 // NewState returns an initialized state object
@@ -52,8 +63,8 @@ func NewState() State {
 func (s *state) Open() []SegmentationDescriptor {
 	open := make([]SegmentationDescriptor, len(s.open))
 	copy(open, s.open)
-	if s.inBlackout {
-		return append(open[0:s.blackoutIdx], open[s.blackoutIdx+1:]...)
+	if idx := s.blackoutIndex(); idx >= 0 {
+		return append(open[0:idx], open[idx+1:]...)
 	} else {
 		return open
 	}
@@ -127,14 +138,11 @@ func (s *state) ProcessDescriptor(desc SegmentationDescriptor) ([]SegmentationDe
 	switch desc.TypeID() {
 	// breakaway handling
 	case SegDescProgramBreakaway:
-		s.inBlackout = true
-		s.blackoutIdx = len(s.open)
 		// append breakaway to match against resumption even though it's an in
 		s.open = append(s.open, desc)
 	case SegDescProgramResumption:
-		if s.inBlackout {
-			s.inBlackout = false
-			s.open = s.open[0:s.blackoutIdx]
+		if idx := s.blackoutIndex(); idx >= 0 {
+			s.open = s.open[0:idx]
 			// TODO: verify that there is a program start that has a matching event id
 		} else {
 			// ProgramResumption can only come after a breakaway
